@@ -15,7 +15,7 @@ inductive UId
 
 abbrev UName := Option Str
 
-def uidJ : Option UId → Json
+def uuidUidJ : Option UId → Json
   | none => Json.null
   | some (.given s) => Json.mkObj [("g", strJ s)]
   | some (.inv n) => Json.mkObj [("i", Json.num n)]
@@ -136,14 +136,14 @@ def asPre (j : Json) : Except String (List (PreItem UName UId)) := do
       pure (os.map .own)
 
 def occJ (o : Occ UName UId) : Json :=
-  Json.arr #[siteJ o.site, kindJ o.kind, nameJ o.name, uidJ o.given]
+  Json.arr #[siteJ o.site, kindJ o.kind, nameJ o.name, uuidUidJ o.given]
 
 def dictJ (d : Dict UName UId) : Json :=
-  Json.arr (d.map (fun p => Json.arr #[nameJ p.1, uidJ p.2])).toArray
+  Json.arr (d.map (fun p => Json.arr #[nameJ p.1, uuidUidJ p.2])).toArray
 
 def errJ : Err UName UId → Json
   | .conflict k n u r => Json.mkObj [("type", Json.str "conflict"), ("kind", kindJ k),
-      ("name", nameJ n), ("new", uidJ (some u)), ("recorded", uidJ (some r))]
+      ("name", nameJ n), ("new", uuidUidJ (some u)), ("recorded", uuidUidJ (some r))]
   | .triggerUnknownFlow n => Json.mkObj [("type", Json.str "triggerUnknownFlow"), ("name", nameJ n)]
 
 def outJ (o : Out UName UId) : Json :=
